@@ -631,6 +631,17 @@ class Program:
                     work.append((body, d + 1))
         return out
 
+    def const_strings(self, path):
+        """the string literals of the named constant / static `path` (`const T: &[&str] = &["a", "b"]`), in source
+        order; None when there is no such item or it holds no string"""
+        from sa import hirq
+        for h in self.hir.values():
+            if isinstance(h, dict) and h.get("kind") in ("Const", "Static", "AssocConst") and h.get("path") == path and isinstance(h.get("body"), dict):
+                vals = [hirq.lit_str(x) for x in hirq.exprs(h["body"], "Lit")]
+                vals = [v for v in vals if isinstance(v, str)]
+                return vals or None
+        return None
+
     def hir_items(self):
         """(body, hir) for every function with a source-level view; a helper that was spliced into its callers is
         attributed to the first of them (its own body no longer exists)"""
